@@ -17,7 +17,7 @@ ASSUMPTIONS = [
 
 def run(tier):
     name = "annot_quick" if tier == "quick" else "annot_thorough"
-    jobs = [Job("harness.c13", name, H.shards(name, 3 if tier == "quick" else 4), 240 if tier == "quick" else 2400,
+    jobs = [Job("harness.c13", name, H.shards(name, 3 if tier == "quick" else 4), 240 if tier == "quick" else 600,
                 bounds=dict(strategies=[s.name for s in H.STRATEGIES], functions=[f.__qualname__ for f in H.FUNCS], shapes=list(H.SHAPES),
                             traced_types=3 if tier == "quick" else 5),
                 rule="one path = (strategy, function, traced subset, traced types, return/yield shape)", describe=H.describe)]
